@@ -89,4 +89,43 @@ def Graph.interEventOut (g : Graph) (u : Node) : List (Int × Nat) :=
 def Graph.interEventIn (g : Graph) (u : Node) : List (Int × Nat) :=
   gapHist ((g.stream.filter (fun e => e.v == u)).map (·.t))
 
+/-! ### the per-interaction variants `inter_*event_time_distribution(u, v)`: gaps between the boundaries of the
+     pair's stored runs (a one-instant run contributes its instant once) -/
+
+def boundaryList (tl : List Span) : List Int :=
+  tl.flatMap (fun s => if s.1 != s.2 then [s.1, s.2] else [s.1])
+
+/-- the exposed timeline of the stored arc / pair with exactly these endpoints in this order (`_succ[u][v]`);
+    on undirected graphs the pair is symmetric -/
+def Graph.arcTimeline (g : Graph) (u v : Node) : Option (List Span) :=
+  if g.directed then (g.edges.find? (fun e => e.u == u && e.v == v)).map (fun e => e.tl.reverse)
+  else g.timeline u v
+
+/-- `DynGraph.inter_event_time_distribution(u, v)`: `KeyError` when the pair was never added;
+    `DynDiGraph.inter_event_time_distribution(u, v)`: the arc `v -> u` if stored, else `u -> v`, else nothing -/
+def Graph.interEventPair (g : Graph) (u v : Node) : Except Err (List (Int × Nat)) :=
+  if g.directed then
+    match g.arcTimeline v u with
+    | some tl => .ok (gapHist (boundaryList tl))
+    | none =>
+      match g.arcTimeline u v with
+      | some tl => .ok (gapHist (boundaryList tl))
+      | none => .ok []
+  else
+    match g.timeline u v with
+    | some tl => .ok (gapHist (boundaryList tl))
+    | none => .error .key
+
+/-- `inter_out_event_time_distribution(u, v)`: the arc `u -> v` -/
+def Graph.interEventPairOut (g : Graph) (u v : Node) : List (Int × Nat) :=
+  match g.arcTimeline u v with
+  | some tl => gapHist (boundaryList tl)
+  | none => []
+
+/-- `inter_in_event_time_distribution(u, v)`: the arc `v -> u` -/
+def Graph.interEventPairIn (g : Graph) (u v : Node) : List (Int × Nat) :=
+  match g.arcTimeline v u with
+  | some tl => gapHist (boundaryList tl)
+  | none => []
+
 end Dynetx
